@@ -3,11 +3,14 @@
 Two contracts: specs/stream/StreamContract.tla (one sink, one source: buffers, FIFOs, converters, gearbox,
 PipelinedActor users incl. Shifter ...) and specs/stream/StreamRoute.tla (Multiplexer / Demultiplexer / Crossbar
 with a selector that may change in any cycle, and their compositions with buffers)."""
+import contextlib
 import json
 import os
 import random
+import re
 
 from ..gcheck import GFamily, run_batches, schedule_from_trace, linear_replay
+from .. import gcheck
 from .. import tracecheck
 from .. import l2
 from ..families import stream_l2 as sl
@@ -54,16 +57,57 @@ RTCLAUSES = {
             "RouteBoundedDelivery"],
     "C04": ["ValidHoldWhileRoutedT", "RouteBoundedProgress", "RouteBoundedProgressSink"],
 }
-NOTES_FINDINGS = os.path.join(ROOT, "notes", "C03b_findings.json")
+NOTES_FINDINGS = [os.path.join(ROOT, "notes", "C03b_findings.json"), os.path.join(ROOT, "notes", "C03_findings.json")]
+
+_WIT_RE = re.compile(r'<<\s*"WIT",\s*(\d+),\s*"([^"]*)"\s*>>')      # TLC wraps long tuples over several lines
+
+
+@contextlib.contextmanager
+def _witnesses(seen):
+    """collects the <<"WIT", wi, name>> lines (StreamContract.Wit) of the last TLC run of every exploration - that run
+    visits every reachable product state - into seen: wi -> set of names"""
+    base = gcheck.GraphLoop
+
+    class Loop(base):
+        def stats(self):
+            res = self.final
+            if res is not None:
+                for mm in _WIT_RE.finditer(res.out):
+                    seen.setdefault(int(mm.group(1)), set()).add(mm.group(2))
+            return super().stats()
+    gcheck.GraphLoop = Loop
+    try:
+        yield seen
+    finally:
+        gcheck.GraphLoop = base
+
+
+def _check_witnesses(report, cfgs, stats, seen):
+    """vacuity guard: a configuration that exists for a stimulus / parameter class (cfg["wit"]) must have shown it
+    (DUTs dropped after a violation make no claim)"""
+    explored = {s["dut"] for s in stats}
+    wit = {}
+    for spec, cfg in cfgs:
+        if not cfg.get("wit"):
+            continue
+        got = seen.get(cfg["wi"], set())
+        wit["%s%s" % (FAMILY.describe(spec), " pw=%d" % spec["pw"] if spec.get("pw") else "")] = sorted(got)
+        missing = set(cfg["wit"]) - got
+        if missing and FAMILY.describe(spec) in explored:
+            raise MachineryError("vacuity: %s never showed %s" % (FAMILY.describe(spec), sorted(missing)))
+    report.add(witnesses=wit)
 
 
 def _notes_findings(report):
-    """entries of notes/C03b_findings.json for this property whose id /verif/known_findings.json does not list yet"""
-    try:
-        with open(NOTES_FINDINGS) as f:
-            entries = json.load(f)
-    except FileNotFoundError:
-        return
+    """entries of notes/C03b_findings.json, notes/C03_findings.json for this property whose id /verif/known_findings.json
+    does not list yet"""
+    entries = []
+    for path in NOTES_FINDINGS:
+        try:
+            with open(path) as f:
+                entries += json.load(f)
+        except FileNotFoundError:
+            pass
     have = {f.get("id") for f in load_findings()} | {f.get("id") for f in report.findings}
     for e in entries:
         if e.get("property") == report.prop and e.get("id") not in have:
@@ -71,7 +115,9 @@ def _notes_findings(report):
 
 
 def _batches(cfgs, size):
-    return [cfgs[i:i + size] for i in range(0, len(cfgs), size)]
+    """demonstration DUTs of listed findings go last, each in a batch of its own (a violation restarts its batch)"""
+    main = [x for x in cfgs if not x[0].get("demo")]
+    return [main[i:i + size] for i in range(0, len(main), size)] + [[x] for x in cfgs if x[0].get("demo")]
 
 
 # ----------------------------------------------------------------------------- T-mode
@@ -109,7 +155,11 @@ def sim_trace(spec, cfg, ncycles, rnd, pvalid=0.6, pready=0.6):
                 cur = None
             if cur is None and rnd.random() < pvalid:
                 cur = newtok()
-            if cur is None:
+            if cur is None and cfg.get("junk"):
+                # nothing offered: the token lines carry anything (first/last only with junk = 1)
+                j = newtok()
+                nv = [0, j[0], j[1] if cfg["junk"] == 1 else 0, j[2] if cfg["junk"] == 1 else 0, j[3]]
+            elif cur is None:
                 nv = [0, 0, 0, 0, 0]
             else:
                 nv = [1, cur[0], cur[1], cur[2], cur[3]]
@@ -131,11 +181,18 @@ def tmode_configs(tier):
     big8 = [0x00, 0xff, 0xa5, 0x3c, 0x81, 0x7e, 0x01, 0x80]
     big16 = [0x0000, 0xffff, 0xa55a, 0x1234, 0x8001, 0x7ffe, 0xbeef]
     big24 = [0x000000, 0xffffff, 0x123456, 0xabcdef, 0x800001, 0x7ffffe]
-    L.append(({"cls": "SyncFIFO", "args": {"depth": 16}, "dw": 16, "pw": 4}, C("id", dset=big16, pmax=15, cap=20)))
+    L.append(({"cls": "SyncFIFO", "args": {"depth": 16}, "dw": 16, "pw": 4}, dict(C("id", dset=big16, pmax=15, cap=20), junk=1)))
     L.append(({"cls": "SyncFIFO", "args": {"depth": 5, "buffered": True}, "dw": 24}, C("id", dset=big24, cap=9)))
     L.append(({"cls": "Buffer", "args": {"pv": True, "pr": True}, "dw": 24, "pw": 3}, C("id", dset=big24, pmax=7, cap=5)))
     L.append(({"cls": "Converter", "args": {"nfrom": 8, "nto": 24, "vtc": True}, "vtc": True},
-              C("up", dset=big8, ratio=3, w=8, vtc=1, cap=3)))
+              dict(C("up", dset=big8, ratio=3, w=8, vtc=1, cap=3), junk=1)))
+    # several payload fields of unequal width (field-wise stride mapping), junk on the idle lines
+    L.append(({"cls": "StrideConverter", "args": {"fields": [5, 3], "ratio": 3, "up": True}, "pw": 2},
+              dict(C("up", dset=big8, ratio=3, w=8, pmax=3, cap=3), fields=[5, 3], junk=1)))
+    L.append(({"cls": "StrideConverter", "args": {"fields": [3, 4, 1], "ratio": 3, "up": False, "reverse": True}, "pw": 2},
+              dict(C("down", dset=big24, ratio=3, reverse=1, w=8, pmax=3, cap=5), fields=[3, 4, 1], junk=1)))
+    L.append(({"cls": "Cast", "args": {"wa": 5, "wb": 11, "rf": True, "ta": 9, "tb": 7, "rt": True}},
+              dict(C("id", dset=big16, cap=2), cast=[1, 5, 11, 1, 9, 7], junk=1)))
     L.append(({"cls": "Converter", "args": {"nfrom": 4, "nto": 28, "reverse": True, "vtc": True}, "vtc": True},
               C("up", dset=range(16), ratio=7, reverse=1, w=4, vtc=1, cap=3)))
     L.append(({"cls": "Converter", "args": {"nfrom": 24, "nto": 8, "vtc": True}, "vtc": True},
@@ -147,13 +204,14 @@ def tmode_configs(tier):
               C("gear", dset=[0x3ff, 0x155, 0x2aa, 0x001, 0x200, 0x0f3], fl=0, idw=10, odw=4, msb=1, cap=100)))
     L.append(({"cls": "Gearbox", "args": {"i": 8, "o": 20, "msb": False}},
               C("gear", dset=big8, fl=0, idw=8, odw=20, msb=0, cap=200)))
-    L.append(({"cls": "Pack", "args": {"n": 4}, "dw": 6, "pw": 2}, C("up", dset=range(64), ratio=4, w=6, pmax=3, cap=3)))
+    L.append(({"cls": "Pack", "args": {"n": 4}, "dw": 6, "pw": 2},
+              dict(C("up", dset=range(64), ratio=4, w=6, pmax=3, cap=3), junk=2)))      # junk = 2: C03-pack-idle-first-last
     L.append(({"cls": "Unpack", "args": {"n": 4, "reverse": True}, "dw": 6, "pw": 2},
               C("down", dset=[0xffffff, 0x123456, 0xabcdef, 0x000001, 0x800000, 0xfc0fc0], ratio=4, reverse=1, w=6, pmax=3, cap=6)))
     L.append(({"cls": "Delay", "args": {"n": 5}, "dw": 12}, C("id", dset=[0, 0xfff, 0xa5a, 0x123], cap=7)))
     L.append(({"cls": "Shifter", "args": {"dw": 16, "shift": 5}},
               dict(C("shift", dset=big16, idw=16, cap=2), shift=5)))
-    L.append(({"cls": "Pipe", "args": {"latency": 2}, "dw": 24, "pw": 3}, C("id", dset=big24, pmax=7, cap=2)))
+    L.append(({"cls": "Pipe", "args": {"latency": 2}, "dw": 24, "pw": 3}, dict(C("id", dset=big24, pmax=7, cap=2), junk=1)))
     if tier == "thorough":
         L.append(({"cls": "Gearbox", "args": {"i": 20, "o": 16, "msb": True}},
                   C("gear", dset=[0xfffff, 0x12345, 0xaaaaa, 0x55555, 1, 0x80000], fl=0, idw=20, odw=16, msb=1, cap=400)))
@@ -333,9 +391,16 @@ def run(prop, report, tier, seed):
     report.assume("producer keeps valid and token steady until accepted (stream protocol); exhaustive G-mode at "
                   "reduced widths (1-4 bit payload alphabets), realistic widths only sampled in T-mode")
     report.assume("FHDL netlist semantics = litex/gen/sim/core.py (compiled stepper cross-checked against it)")
-    stats = run_batches(FAMILY, report, _batches(cfgs, 14 if tier == "quick" else 4), invs, props,
-                        spec_budget=80000 if tier == "quick" else 600000,
-                        total_budget=900000 if tier == "quick" else 3000000, on_accept=_l2_on_accept(l2state))
+    report.assume("in the configurations marked junk=1 the data / first / last / param lines carry any value while the "
+                  "producer's valid is low (they mean nothing then); elsewhere they are 0.  Every such configuration, the "
+                  "multi-field StrideConverter and the regrouping Cast configurations are guarded by a TLC-printed witness "
+                  "(vacuity = machinery error)")
+    seen = {}
+    with _witnesses(seen):
+        stats = run_batches(FAMILY, report, _batches(cfgs, 14 if tier == "quick" else 4), invs, props,
+                            spec_budget=80000 if tier == "quick" else 600000,
+                            total_budget=900000 if tier == "quick" else 3000000, on_accept=_l2_on_accept(l2state))
+    _check_witnesses(report, cfgs, stats, seen)
     report.add(duts_explored=len(stats), clauses=invs + props, per_dut=stats)
     # routing elements: selector inputs that may change in any cycle (own contract module)
     report.assume("routing elements: the selector is an environment input that may change in any cycle; a source's "
